@@ -148,3 +148,46 @@ fn c14_psk8_noiseless_hard_decisions() {
     assert!((out[2] <= 0.0) == b2);
     kani::cover!(b0 && b1 && !b2);
 }
+
+/// BOUNDED (concrete points): the LLR scale.  BPSK at sigma = 0.5 and 2.0 (powers of two, so the
+/// closed form -2 r / sigma^2 is exact in floating point).
+#[kani::proof]
+#[kani::unwind(6)]
+fn c14_bpsk_scale_points() {
+    let d = BpskDemodulator::from_noise_sigma(0.5);
+    let o = d.demodulate(&[1.0, -3.0, 0.25]);
+    assert!(o[0] == -8.0 && o[1] == 24.0 && o[2] == -2.0);
+    let d = BpskDemodulator::from_noise_sigma(2.0);
+    let o = d.demodulate(&[1.0, -3.0]);
+    assert!(o[0] == -0.5 && o[1] == 1.5);
+    kani::cover!(true);
+}
+
+/// BOUNDED (concrete points): 8PSK soft values have the scale 1 / sigma^2.  Far from the origin
+/// the max-log value dominates: LLR = (max metric over bit-0 symbols - max over bit-1 symbols)
+/// up to 3 ln 2 on each side, with metric <r, s> / sigma^2 (max* axiomatised as above).
+#[kani::proof]
+#[kani::unwind(10)]
+#[kani::stub(f64::ln_1p, ax_ln1p)]
+#[kani::stub(f64::exp, ax_exp)]
+fn c14_psk8_scale_points() {
+    let slack = 3.0 * 0.6931471805599453 + 1e-9;
+    // r = 400 on the positive real axis = 400 x the symbol of bits 001; sigma = 2 => metrics r.s / 4
+    let d = Psk8Demodulator::from_noise_sigma(2.0);
+    let o = d.demodulate(&[Complex::new(400.0, 0.0)]);
+    let a = 0.7071067811865476f64;
+    // bit 2: best 0-symbol is 000 or 101 (metric 100 a), best 1-symbol is 001 (metric 100)
+    let want2 = 100.0 * a - 100.0;
+    assert!((o[2] - want2).abs() <= slack);
+    // bits 0 and 1: best 0-symbol is 001 (100); best 1-symbols: b0 -> 101 (100 a), b1 -> 011/110.. (-100 a) .. 111/110 at 0
+    let want0 = 100.0 - 100.0 * a;
+    assert!((o[0] - want0).abs() <= slack);
+    let want1 = 100.0 - 0.0;
+    assert!((o[1] - want1).abs() <= slack);
+    // sigma = 0.5 => metrics r.s * 4, r = 10 i (10 x the symbol 100)
+    let d = Psk8Demodulator::from_noise_sigma(0.5);
+    let o = d.demodulate(&[Complex::new(0.0, 10.0)]);
+    // bit 0: best 1-symbol 100 (40), best 0-symbol 000 (40 a)
+    assert!((o[0] - (40.0 * a - 40.0)).abs() <= slack);
+    kani::cover!(true);
+}
